@@ -45,3 +45,31 @@ Definition observe (pre : cfg) (inputs : list (Z * bool)) : list (list section) 
 
 (* sort_vars alone, for the direct differential test of the comparator *)
 Definition observe_sort (r : row) : orow := enc_row (sort_vars r).
+
+(* ---- DFContainer scripts ---------------------------------------------------------------- *)
+From V.C01 Require Import ModelDfc.
+
+Definition enc_pid (p : pid) : list Z := map Z.of_nat p.
+Definition enc_op (o : op) : list Z :=
+  match o with
+  | OMake ins out => 0 :: Z.of_nat out :: map Z.of_nat ins
+  | OUnpack inp outs => 1 :: Z.of_nat inp :: map Z.of_nat outs
+  end.
+
+(* run as far as the script succeeds: (number of successful steps, state reached) *)
+Fixpoint run_steps (env : list ty) (script : list sop) (st : state) (k : nat) : nat * state :=
+  match script with
+  | [] => (k, st)
+  | s :: rest =>
+      match run_script env [s] st with
+      | Some st' => run_steps env rest st' (S k)
+      | None => (k, st)
+      end
+  end.
+
+(* [[steps; inv]] ; locals as [wire; pid...] ; log *)
+Definition observe_dfc (env : list ty) (script : list sop) : list (list (list Z)) :=
+  let (k, st) := run_steps env script empty_dfc 0 in
+  [ [[Z.of_nat k; b2z (dfc_inv_b env st); b2z (env_ok env)]];
+    map (fun e => Z.of_nat (snd e) :: enc_pid (fst e)) (locals st);
+    map enc_op (log st) ].
